@@ -450,6 +450,12 @@ def sample_mismatch_experiment(block: Block, sample: dict) -> dict:
         A :class:`dict` describing the mismatches. The entries of the dictionary lists the
         mismatches in the categories factors, constraints and crossings
     """
+    # A factor that the block introduced internally for weighted levels is not
+    # part of what `synthesize_trials` returns; its levels repeat the level
+    # names of the factor that it stands for.
+    for f in block.design:
+        if isinstance(f.name, HiddenName) and f.name not in sample and f.name.name in sample:
+            sample = {**sample, f.name: sample[f.name.name]}
     res = {}
     for key in sample:
         if len(sample[key]) != block.trials_per_sample():
